@@ -97,6 +97,14 @@ func VH_C20_Marshal(shape int) {
 		tr.Events = []*StreamEvent{mkRows(), mkSQL()}
 	case 3:
 		tr.Events = []*StreamEvent{}
+	case 7:
+		// two statements on tables whose (database, table) name lengths are (5,1) and (1,5): different
+		// pairs of names whose quoted concatenation `db`.`table` can coincide
+		a := newStreamEvent(StatementCreate, int64(vhU32()), NewMysqlTableName(string(vhASCII(5)), string(vhASCII(1))))
+		b := newStreamEvent(StatementCreate, int64(vhU32()), NewMysqlTableName(string(vhASCII(1)), string(vhASCII(5))))
+		a.Query = replication.Query{SQL: "x"}
+		b.Query = replication.Query{SQL: "y"}
+		tr.Events = []*StreamEvent{a, b}
 	case 5:
 		// a rows event that carries no row (an empty rows section), followed by a statement
 		empty := newStreamEvent([]StatementType{StatementInsert, StatementUpdate, StatementDelete}[vhChoose(3)], int64(vhU32()),
